@@ -61,6 +61,7 @@ class Engine:
         self.bound_exceeded = 0
         self.exhausted = False
         self.nontrivial_paths = 0
+        self.fp_precise = False  # divisions are carried out bit-precisely in the z3 FP theory
 
     # ---- variables -------------------------------------------------------------------
     def _name(self, base: str) -> str:
@@ -529,6 +530,10 @@ def fdiv(a: Any, b: Any) -> Any:
     if ia is None or ib is None:
         raise HarnessError(f"division outside the modelled fragment: {a!r} / {b!r}")
     e = eng()
+    if e.fp_precise:
+        from .fp import FPVal, F64
+
+        return FPVal.of(a if not isinstance(a, SFloat) else SInt(a.it), F64) / FPVal.of(b if not isinstance(b, SFloat) else SInt(b.it), F64)
     if e.decide(ib == 0):
         raise ZeroDivisionError("float division by zero")
     exact = z3.ToReal(ia) / z3.ToReal(ib)
